@@ -39,11 +39,17 @@ Inductive tstep (s : sys) : label -> sys -> Prop :=
   | TNextMsg m : reader s = RPush (IMsg m) O -> tstep s LNext (with_reader s RIdle)
   | TNextFail e : reader s = RPush (IFail e) O -> tstep s LNext (with_reader (with_ch s (close (ch s))) RStopped)
   | TArrive it : causal_ok s it = true -> tstep s (LArrive it) (with_socket s (socket s ++ [it]))
-  | THijack (e : bool) : reader s = RIdle -> (if e then kerr s else kret s) = true -> tstep s (LHijack e) (hijack s e).
+  | THijack (e : bool) : reader s = RIdle -> (if e then kerr s else kret s) = true -> tstep s (LHijack e) (hijack s e)
+  | TWire i c : nth_error (callers s) i = Some c -> c_st c = CSending ->
+      tstep s (LWire i) (with_callers (with_wire s (wire s ++ [c_serial c])) (upd (callers s) i (set_st c CWritten)))
+  | TRetNoReply i c : nth_error (callers s) i = Some c -> c_st c = CWritten -> c_kind c = KNoReply ->
+      tstep s (LRet i) (finish (with_wlock s None) i c RNoReply)
+  | TRetOk i c : nth_error (callers s) i = Some c -> c_st c = CWritten -> c_kind c <> KNoReply ->
+      tstep s (LRet i) (with_callers (with_wlock s None) (upd (callers s) i (set_st c CWaiting))).
 
 Lemma step_tstep l s s' : step l s = Some s' -> tstep s l s'.
 Proof.
-  unfold step. destruct l as [i|i|i ok|i|i| | | |it|e].
+  unfold step. destruct l as [i|i|i ok|i|i| | | |it|e|i|i].
   - destruct (nth_error (callers s) i) as [c|] eqn:Ec; [|discriminate]. destruct (c_st c) eqn:Est; try discriminate.
     intros H. inversion H; subst s'. now apply TSub.
   - destruct (nth_error (callers s) i) as [c|] eqn:Ec; [|discriminate]. destruct (wlock s) eqn:Ew; [discriminate|].
@@ -80,6 +86,13 @@ Proof.
   - destruct (causal_ok s it) eqn:Ec; [|discriminate]. intros H; inversion H; subst s'. now apply TArrive.
   - destruct (reader s) eqn:Er; try discriminate. destruct (if e then kerr s else kret s) eqn:Ek; [|discriminate].
     intros H; inversion H; subst s'. now apply THijack.
+  - destruct (nth_error (callers s) i) as [c|] eqn:Ec; [|discriminate]. destruct (c_st c) eqn:Est; try discriminate.
+    intros H; inversion H; subst s'. now apply TWire.
+  - destruct (nth_error (callers s) i) as [c|] eqn:Ec; [|discriminate]. destruct (c_st c) eqn:Est; try discriminate.
+    destruct (c_kind c) eqn:Ek; intros H; inversion H; subst s'.
+    + apply TRetOk; try assumption. congruence.
+    + apply TRetOk; try assumption. congruence.
+    + now apply TRetNoReply.
 Qed.
 
 (* ---- list update ---- *)
